@@ -242,6 +242,8 @@ func (j *mergejoin[T]) onSubCollectionEventHandler(o []Event[T]) {
 			if j.log.DebugEnabled() {
 				j.log.WithLabels("res", objKey).Debugf("handled delete")
 			}
+			// The delete (of the merged object) has been recorded above; do not publish the input event as well.
+			continue
 		} else {
 			// We can trust these events as authoritative because we checked the state of the collections
 			// in refreshEvents.
